@@ -378,8 +378,15 @@ func (e *c19Env) request(a c19Act) (httpReq, bool) {
 		m := map[string]any{"name": a.U, "email": c19Email(a.U, a.Ver), "common_name": fmt.Sprintf("%s v%d", a.U, a.Ver), "groups": []string{"staff", fmt.Sprintf("grp-v%d", a.Ver)}}
 		if a.Pw != "keep" {
 			m["password"] = c19Pw(a.Pw)
-		} else if _, exists := e.store.clone()["/users/"+a.U]; exists {
+		} else if data := e.store.clone(); data["/users/"+a.U] != "" {
 			m["hashed_password"] = c19IntruderHash() // ignored: the stored credential stays
+			// ... and so is a name in the body that is not the name in the URL: the update is about the user in
+			// the URL, whoever else the body mentions
+			for k := range data {
+				if strings.HasPrefix(k, "/users/") && k != "/users/"+a.U && (m["name"] == a.U || k < "/users/"+m["name"].(string)) {
+					m["name"] = strings.TrimPrefix(k, "/users/")
+				}
+			}
 		}
 		b, _ := json.Marshal(m)
 		return httpReq{Method: "PUT", URL: u("/users/" + a.U), Body: string(b)}, true
@@ -1008,6 +1015,19 @@ func TestC19(t *testing.T) {
 				// ... and an update that carried no password has given the user no new one
 				if real.Reply == ed.Reply && ed.Act.N == "PutUser" && ed.Act.Pw == "keep" && ed.From.Users[ed.Act.U].Pw != "absent" {
 					penv := c19Restore(&c19Snap{data: env.store.clone(), slot: env.snap.slot, ticks: env.snap.ticks})
+					// (nor anybody else's: tried from a third of the states, the comparison is bcrypt-bound)
+					if cur := ed.From.Users[ed.Act.U].Pw; hashKey(fk)[0]%3 == 0 {
+						for _, other := range []string{"p1", "e"} {
+							if other == cur {
+								continue
+							}
+							oenv := c19Restore(&c19Snap{data: env.store.clone(), slot: env.snap.slot, ticks: env.snap.ticks})
+							if pr := oenv.do(c19Act{N: "Login", U: ed.Act.U, Pw: other}, 0, ""); pr.SetCookie != "" || pr.Reply.Kind == "json" {
+								rep.Violation(key+":credential-changed-without-password", fmt.Sprintf("after this update without a password (answered %d, as the reference model does) user %s's current password is still %q, yet %q - not the user's password - opens a session", real.Reply.Status, ed.Act.U, cur, other), replay(map[string]any{"probe": pr.Reply}))
+								return
+							}
+						}
+					}
 					if pr := penv.do(c19Act{N: "Login", U: ed.Act.U, Pw: "intruder"}, 0, ""); pr.SetCookie != "" || pr.Reply.Kind == "json" {
 						rep.Violation(key+":credential-from-body", fmt.Sprintf("after this update without a password (answered %d, as the reference model does) user %s's current password is still %q, yet a password that was never set for the user - its hash travelled in the update's hashed_password field - opens a session", real.Reply.Status, ed.Act.U, ed.From.Users[ed.Act.U].Pw), replay(map[string]any{"probe": pr.Reply}))
 						return
